@@ -180,10 +180,18 @@ def _composite_cases(tier):
                 yield {"variant": {"links": pre + [name]}, "n": n, "tier": tier}
 
 
+def _ord3_cases(tier):
+    # three-residue links: every admissible triple of order prefixes in every listing order
+    for name in _F.ord3_names():
+        for n in (3, 4):
+            yield {"variant": {"links": [name], "names": ["A", "B"] if n == 3 else ["A"]}, "n": n, "tier": tier}
+
+
 def cases(tier):          # noqa: F811
     yield from _core_cases(tier)
     yield from _dangling_cases(tier)
     yield from _composite_cases(tier)
+    yield from _ord3_cases(tier)
 
 
 def run_case(case):       # noqa: F811
